@@ -55,7 +55,7 @@ Detect(cf, st) ==
       forG(g) ==
         IF g >= cf.S + 1                                                            \* both sync bytes seen: size detected
         THEN { ReadPacket(cf, [st EXCEPT !.pb = "ok",
-                                         !.pos = IF cf.kind = "seek" THEN 0 ELSE IF cf.kind = "bufio" THEN st.pos ELSE st.pos + g + sync])
+                                         !.pos = IF cf.kind \in {"seek", "bufio"} THEN st.pos ELSE st.pos + g + sync])   \* a seekable reader is given the window back (relative seek), a bufio.Reader was only peeked at
                : sync \in syncs(g) }
         \* detection failed; what was looked at is consumed whatever the reader kind (a bufio.Reader is advanced by Discard)
         \* nothing left at all, or the input ends inside its first packet (a truncated final packet is the end of the stream, C03);
